@@ -132,7 +132,13 @@ type c30Seed struct {
 	Local string `json:"local"` // local set-up of the connection the seed is fed to
 	SDP   string `json:"sdp"`
 	D     bool   `json:"d,omitempty"` // seed of part D (real pair; the text only fixes the line structure)
+	// Identity: the text of another offer seed, fed UNCHANGED to a connection with another local set-up
+	Identity bool `json:"identity,omitempty"`
 }
+
+// c30ExtraLocals: local set-ups every offer seed is additionally fed to without any deviation (the local
+// side decides which transceivers have no sender / no receiver when the remote section is applied).
+var c30ExtraLocals = []string{"bare", "video", "avd", "sim", "sendonly-kinds", "recvonly-kinds", "sendonly-tracks"}
 
 var c30Sems = []SDPSemantics{SDPSemanticsUnifiedPlan, SDPSemanticsPlanB, SDPSemanticsUnifiedPlanWithFallback}
 
@@ -246,6 +252,18 @@ func c30Setup(tb testing.TB, pc *PeerConnection, setup string) {
 		must(t.Sender().AddEncoding(c30Track(tb, MimeTypeVP8, "lv", "ls", "h")))
 		must(t.Sender().AddEncoding(c30Track(tb, MimeTypeVP8, "lv", "ls", "f")))
 		addTrack(MimeTypeOpus, "la")
+	case "sendonly-kinds", "recvonly-kinds":
+		// transceivers made from a kind: a send-only one has no receiver, a receive-only one no sender
+		dir := map[string]RTPTransceiverDirection{"sendonly-kinds": RTPTransceiverDirectionSendonly, "recvonly-kinds": RTPTransceiverDirectionRecvonly}[setup]
+		for _, k := range []RTPCodecType{RTPCodecTypeAudio, RTPCodecTypeVideo} {
+			_, err := pc.AddTransceiverFromKind(k, RTPTransceiverInit{Direction: dir})
+			must(err)
+		}
+	case "sendonly-tracks":
+		for _, m := range []string{MimeTypeOpus, MimeTypeVP8} {
+			_, err := pc.AddTransceiverFromTrack(c30Track(tb, m, "l"+m[:1], "ls", ""), RTPTransceiverInit{Direction: RTPTransceiverDirectionSendonly})
+			must(err)
+		}
 	default:
 		vkit.Fatalf(tb, "unknown setup %q", setup)
 	}
@@ -314,6 +332,18 @@ func c30MakeSeeds(tb testing.TB) []c30Seed {
 		return 2000 + n
 	}
 	sort.SliceStable(seeds, func(i, j int) bool { return rank(seeds[i]) < rank(seeds[j]) })
+	// every offer seed, unchanged, against the further local set-ups (appended: the order above is a priority)
+	n := len(seeds)
+	for i := 0; i < n; i++ {
+		if seeds[i].Type != "offer" {
+			continue
+		}
+		for _, l := range c30ExtraLocals {
+			if l != seeds[i].Local {
+				seeds = append(seeds, c30Seed{Name: seeds[i].Name + "@" + l, Type: "offer", Local: l, SDP: seeds[i].SDP, Identity: true})
+			}
+		}
+	}
 
 	return seeds
 }
@@ -492,6 +522,8 @@ func c30Apply(lines []string, d c30Dev) []string {
 	out := make([]string, 0, len(lines)+1)
 	// a second deviation may meet a text in which its address no longer exists: then it is void
 	switch d.Op {
+	case "none":
+		return lines
 	case "sep":
 		if d.I >= len(lines) || c30ValueAt(lines[d.I]) < 0 || d.J >= len(c30SepOffsets(lines[d.I][c30ValueAt(lines[d.I]):])) {
 			return lines
@@ -594,6 +626,8 @@ func c30ApplyAll(lines []string, devs []c30Dev) string {
 
 func c30DevFamily(lines []string, d c30Dev) (op, kind string) {
 	switch d.Op {
+	case "none":
+		return "none", "-"
 	case "fdel", "fren":
 		return d.Op, d.Fam
 	case "val", "tok":
@@ -734,6 +768,9 @@ func c30BuildEnv(seeds []c30Seed, thorough bool, nCands int) *c30Env {
 		lines := c30Lines(s.SDP)
 		// token replacement operators: quick tier only for the small seeds
 		devs := c30Devs(lines, thorough || len(lines) <= 30)
+		if s.Identity {
+			devs = []c30Dev{{Op: "none"}}
+		}
 		for sem := range c30Sems {
 			for _, m := range c30Modes {
 				add(&c30Job{seed: s, lines: lines, devs: devs, sem: sem, mode: m})
@@ -748,7 +785,7 @@ func c30BuildEnv(seeds []c30Seed, thorough bool, nCands int) *c30Env {
 		// replacements on ssrc / ssrc-group / rid / simulcast / msid / mid lines
 		for si := range seeds {
 			s := &seeds[si]
-			if s.D {
+			if s.D || s.Identity {
 				continue
 			}
 			lines := c30Lines(s.SDP)
